@@ -43,6 +43,7 @@ class Contract:
         self.qualname = qualname
         self.requires_l = []        # (name, expr)
         self.ensures_l = []         # (name, expr)
+        self.native_ensures_l = []  # (name, expr): bounded stand-in clauses, evaluated natively only
         self.raises_l = []          # (exc class name, when-expr or None, exact: bool)
         self.modifies_l = []        # exprs: 'self.f', 'x.f', 'list(x)', 'global(name)', 'fields(Class.f)' ...
         self.loops = {}
@@ -73,7 +74,11 @@ class Contract:
     # fluent API
     def requires(self, e, name=None):
         self.requires_l.append((name or 'pre%d' % len(self.requires_l), e)); return self
-    def ensures(self, e, name=None):
+    def ensures(self, e, name=None, native_only=False):
+        """native_only: the clause is NOT turned into proof obligations (and not assumed at call sites); it is only evaluated on the
+        real function by the bounded native search - reported as a bounded stand-in, never as proved"""
+        if native_only:
+            self.native_ensures_l.append((name or 'npost%d' % len(self.native_ensures_l), e)); return self
         self.ensures_l.append((name or 'post%d' % len(self.ensures_l), e)); return self
     def raises(self, exc, when=None, exact=True, msg=None):
         self.raises_l.append((exc, when, exact)); self.raise_msgs[exc] = msg; return self
